@@ -121,8 +121,19 @@ Proof.
 Qed.
 Print Assumptions C07_model_is_source_calculate_pairwise.
 
-(* the translated functions composed as the command line composes them (one calculate_... per listed chunk index, concat,
-   to_dense) ARE the model's pipeline, the subject of C07_assemble / C07_incomplete_refused *)
+(* save / load with the h5py calls as primitives over the record of the file's four datasets: save writes the used
+   prefixes of the three arrays and [size] (file_of_storage); loading what save wrote gives a well-formed object that
+   represents the same matrix - the model's dm_load (dm_save m) *)
+Theorem C07_model_is_source_save_load : forall (V : Type) (vzero : V) (visz : V -> bool), visz vzero = true ->
+  (forall st : cdm V, src_cdm_save V vzero visz st = Ok (file_of_storage st)) /\
+  (forall st : cdm V, storage_ok vzero visz st ->
+     storage_refines vzero visz (dor f <- src_cdm_save V vzero visz st; src_cdm_load V vzero visz f)
+                     (Ok (dm_load V (dm_save V (dm_of_storage vzero st))))).
+Proof. exact (fun V vzero visz H => conj (src_save_is_model V vzero visz) (src_load_save_is_model V vzero visz H)). Qed.
+Print Assumptions C07_model_is_source_save_load.
+
+(* the translated functions composed as the command line composes them (per listed chunk index one calculate_..., save,
+   load; then concat, to_dense) ARE the model's pipeline, the subject of C07_assemble / C07_incomplete_refused *)
 Theorem C07_model_is_source_pipeline : forall (V : Type) (vzero : V) (visz : V -> bool), visz vzero = true ->
   forall (Th Pr : Type) (get_theta : Z -> Th) (predict : Th -> Pr) (dist : Pr -> Pr -> V) (n : nat) (c : Z) (order : list Z),
   order <> [] -> (forall k, In k order -> (0 <= k < c)%Z) ->
